@@ -1043,3 +1043,170 @@ Section Renaming.
     Qed.
   End Detect.
 End Renaming.
+
+(* ====================================================================== PART 6 : the decidable check; end-to-end theorems *)
+Definition instr_eq_dec_iso : forall a b : instr, {a = b} + {a <> b}.
+Proof. repeat decide equality. Defined.
+Definition block_eq_dec_iso : forall a b : block, {a = b} + {a <> b}.
+Proof. repeat decide equality. Defined.
+Definition sub_eq_dec_iso : forall a b : subroutine, {a = b} + {a <> b}.
+Proof. repeat decide equality. Defined.
+Definition dec_b {P : Prop} (d : {P} + {~ P}) : bool := if d then true else false.
+Lemma dec_b_true {P : Prop} (d : {P} + {~ P}) : dec_b d = true -> P.
+Proof. destruct d; [auto|discriminate]. Qed.
+
+Definition opt_eq_dec_iso {A} (d : forall a b : A, {a = b} + {a <> b}) : forall a b : option A, {a = b} + {a <> b}.
+Proof. decide equality. Defined.
+
+Definition iso_check (r g : nat -> nat) (f f' : func) : bool :=
+  dec_b (list_eq_dec block_eq_dec_iso (fn_blocks f') (map (ren_block r g) (fn_blocks f))) &&
+  forallb (fun b => forallb (fun k => dec_b (opt_eq_dec_iso instr_eq_dec_iso (op_at (fn_prog f') (g k)) (op_at (fn_prog f) k)))
+                            (b_ins b)) (fn_blocks f) &&
+  forallb (fun b => match fexit_op f b with
+                    | Some br => Bool.eqb (branch_to_next (fn_prog f') br (g (List.last (b_ins b) 0)))
+                                          (branch_to_next (fn_prog f) br (List.last (b_ins b) 0))
+                    | None => true
+                    end) (fn_blocks f) &&
+  Nat.eqb (fn_entry f') (r (fn_entry f)) &&
+  dec_b (list_eq_dec sub_eq_dec_iso (fn_subs f') (map (ren_sub r) (fn_subs f))) &&
+  dec_b (opt_eq_dec_iso (list_eq_dec N.eq_dec) (fn_intcs f') (fn_intcs f)) &&
+  forallb (fun name => dec_b (opt_eq_dec_iso sub_eq_dec_iso (f_find_sub f' name) (option_map (ren_sub r) (f_find_sub f name))))
+          (map s_name (fn_all_subs f) ++ map s_name (fn_all_subs f')) &&
+  forallb (fun b => dec_b (opt_eq_dec_iso string_dec (f_sub_of f' (r (b_idx b))) (f_sub_of f (b_idx b)))) (fn_blocks f).
+
+Lemma iso_find_sub_none (l : list subroutine) name :
+  ~ In name (map s_name l) -> find (fun s => s_name s =? name) l = None.
+Proof.
+  intros H. destruct (find (fun s => s_name s =? name) l) as [s|] eqn:E; [|reflexivity].
+  exfalso. apply find_some in E. destruct E as [Hin He]. apply String.eqb_eq in He.
+  apply H. apply in_map_iff. exists s. split; assumption.
+Qed.
+
+Theorem iso_check_sound r g f f' :
+  (forall x y, r x = r y -> x = y) -> (forall x y, g x = g y -> x = y) ->
+  iso_check r g f f' = true -> fiso r g f f'.
+Proof.
+  intros Hr Hg H. unfold iso_check in H.
+  repeat (apply andb_true_iff in H; let H2 := fresh "C" in destruct H as [H H2]).
+  rename H into C6.
+  constructor; try assumption.
+  - exact (dec_b_true _ C6).
+  - intros b k Hb Hk. rewrite forallb_forall in C5. specialize (C5 b Hb).
+    rewrite forallb_forall in C5. exact (dec_b_true _ (C5 k Hk)).
+  - intros b br Hb Hop. rewrite forallb_forall in C4. specialize (C4 b Hb). rewrite Hop in C4.
+    apply Bool.eqb_prop in C4. exact C4.
+  - apply Nat.eqb_eq. exact C3.
+  - exact (dec_b_true _ C2).
+  - exact (dec_b_true _ C1).
+  - intros name.
+    destruct (in_dec string_dec name (map s_name (fn_all_subs f) ++ map s_name (fn_all_subs f'))) as [Hin|Hnin].
+    + rewrite forallb_forall in C0. exact (dec_b_true _ (C0 name Hin)).
+    + unfold f_find_sub. rewrite in_app_iff in Hnin.
+      rewrite !iso_find_sub_none by tauto. reflexivity.
+  - intros b Hb. rewrite forallb_forall in C. exact (dec_b_true _ (C b Hb)).
+Qed.
+
+(* ---------------------------------------------------------------------- end to end *)
+(* contexts, validation, reported paths and verdicts of isomorphic functions coincide up to the renaming, for every
+   fuel (exceptions and fuel exhaustion included) and every detector predicate *)
+Theorem iso_verdicts r g f f' : fiso r g f f' -> forall fuel,
+  run_all f' fuel = omap (ren_result r) (run_all f fuel) /\
+  forall res,
+    (forall b fam, ctx_of (ren_result r res) (r b) fam = ctx_of res b fam) /\
+    (forall b checks ai, validated_in_block (ren_result r res) checks ai (r b) = validated_in_block res checks ai b) /\
+    (forall fuel' name checks,
+       run_detector f' (ren_result r res) fuel' name checks =
+       omap (ren_paths r) (run_detector f res fuel' name checks)).
+Proof.
+  intros ISO fuel. split; [exact (iso_run_all r g f f' ISO fuel)|].
+  intros res. split; [|split].
+  - intros b fam. exact (iso_ctx_of r g f f' ISO res b fam).
+  - intros b checks ai. exact (iso_validated_in_block r g f f' ISO res checks ai b).
+  - intros fuel' name checks. exact (iso_run_detector_res r g f f' ISO res fuel' name checks).
+Qed.
+
+(* the verdict reading: whenever the analysis and a detector terminate on f, they terminate on f' with the renamed
+   contexts and exactly the renamed paths in the same order; in particular "some path" / "no path" is the same *)
+Corollary iso_verdict r g f f' fuel fuel' res name checks ps :
+  fiso r g f f' ->
+  run_all f fuel = Done res -> run_detector f res fuel' name checks = Done ps ->
+  exists res' ps',
+    run_all f' fuel = Done res' /\ run_detector f' res' fuel' name checks = Done ps' /\
+    ps' = map (map r) ps /\ (ps' = [] <-> ps = []) /\ length ps' = length ps /\
+    (forall b fam, ctx_of res' (r b) fam = ctx_of res b fam).
+Proof.
+  intros ISO Hrun Hdet. destruct (iso_verdicts r g f f' ISO fuel) as [Hall Hres].
+  destruct (Hres res) as [Hctx [_ Hd]].
+  exists (ren_result r res), (map (map r) ps). rewrite Hall, Hrun, Hd, Hdet. cbn [omap].
+  repeat split; auto.
+  - destruct ps; [reflexivity|discriminate].
+  - intros ->. reflexivity.
+  - apply map_length.
+Qed.
+
+(* ... and conversely: termination on f' implies termination on f (the outcomes correspond one to one) *)
+Corollary iso_verdict_conv r g f f' fuel fuel' res' name checks ps' :
+  fiso r g f f' ->
+  run_all f' fuel = Done res' -> run_detector f' res' fuel' name checks = Done ps' ->
+  exists res ps,
+    run_all f fuel = Done res /\ run_detector f res fuel' name checks = Done ps /\
+    res' = ren_result r res /\ ps' = map (map r) ps.
+Proof.
+  intros ISO Hrun Hdet. destruct (iso_verdicts r g f f' ISO fuel) as [Hall Hres].
+  rewrite Hall in Hrun. destruct (run_all f fuel) as [res| |] eqn:Er; try discriminate.
+  cbn [omap] in Hrun. inversion Hrun; subst res'. clear Hrun.
+  destruct (Hres res) as [_ [_ Hd]]. rewrite Hd in Hdet.
+  destruct (run_detector f res fuel' name checks) as [ps| |] eqn:Ed; try discriminate.
+  cbn [omap] in Hdet. inversion Hdet; subst ps'.
+  exists res, ps. repeat split; auto.
+Qed.
+
+(* the same with the decidable check *)
+Corollary iso_check_verdicts r g f f' :
+  (forall x y, r x = r y -> x = y) -> (forall x y, g x = g y -> x = y) ->
+  iso_check r g f f' = true -> forall fuel,
+  run_all f' fuel = omap (ren_result r) (run_all f fuel) /\
+  forall res,
+    (forall b fam, ctx_of (ren_result r res) (r b) fam = ctx_of res b fam) /\
+    (forall b checks ai, validated_in_block (ren_result r res) checks ai (r b) = validated_in_block res checks ai b) /\
+    (forall fuel' name checks,
+       run_detector f' (ren_result r res) fuel' name checks =
+       omap (ren_paths r) (run_detector f res fuel' name checks)).
+Proof. intros Hr Hg H. apply (iso_verdicts r g f f'). apply iso_check_sound; assumption. Qed.
+
+(* ====================================================================== the renaming induced by swapping two adjacent
+   segments [a, a+m) and [a+m, a+m+n) : the first moves up by n, the second down by m *)
+Definition swap_shift (a m n k : nat) : nat :=
+  if Nat.ltb k a then k else if Nat.ltb k (a + m) then k + n else if Nat.ltb k (a + m + n) then k - m else k.
+
+Lemma swap_shift_inj a m n x y : swap_shift a m n x = swap_shift a m n y -> x = y.
+Proof.
+  unfold swap_shift.
+  destruct (Nat.ltb_spec x a); destruct (Nat.ltb_spec x (a + m)); destruct (Nat.ltb_spec x (a + m + n));
+    destruct (Nat.ltb_spec y a); destruct (Nat.ltb_spec y (a + m)); destruct (Nat.ltb_spec y (a + m + n)); lia.
+Qed.
+
+Lemma swap_shift_inv a m n k : swap_shift a n m (swap_shift a m n k) = k.
+Proof.
+  unfold swap_shift.
+  destruct (Nat.ltb_spec k a); destruct (Nat.ltb_spec k (a + m)); destruct (Nat.ltb_spec k (a + m + n));
+    repeat match goal with |- context [Nat.ltb ?x ?y] => destruct (Nat.ltb_spec x y) end; lia.
+Qed.
+
+Corollary swap_check_verdicts a m n a' m' n' f f' :
+  iso_check (swap_shift a m n) (swap_shift a' m' n') f f' = true -> forall fuel,
+  run_all f' fuel = omap (ren_result (swap_shift a m n)) (run_all f fuel) /\
+  forall res,
+    (forall b fam, ctx_of (ren_result (swap_shift a m n) res) (swap_shift a m n b) fam = ctx_of res b fam) /\
+    (forall b checks ai, validated_in_block (ren_result (swap_shift a m n) res) checks ai (swap_shift a m n b) =
+                         validated_in_block res checks ai b) /\
+    (forall fuel' name checks,
+       run_detector f' (ren_result (swap_shift a m n) res) fuel' name checks =
+       omap (ren_paths (swap_shift a m n)) (run_detector f res fuel' name checks)).
+Proof. apply iso_check_verdicts; apply swap_shift_inj. Qed.
+
+Print Assumptions iso_verdicts.
+Print Assumptions iso_verdict.
+Print Assumptions iso_verdict_conv.
+Print Assumptions iso_check_sound.
+Print Assumptions swap_check_verdicts.
